@@ -76,7 +76,7 @@ let run (lines : string list) =
           a := a'; st := r;
           (match r with
            | Some x -> Printf.printf "new %s%s%s ## new OK%s\n" (stat_name s) (model_obs x 1) (tail x "0") (ideal_obs ())
-           | None -> Printf.printf "new %s |%s\n" (stat_name s) (ledger !a))
+           | None -> Printf.printf "new %s |%s ## new %s |\n" (stat_name s) (ledger !a) (stat_name s))   (* a refused constructor: the ideal agrees with the status; an abort here is a failing input *)
       | _ -> failwith "bad header"
     end else
       match tok, !st with
